@@ -226,7 +226,10 @@ func oracleC11(r *Result) {
 			}
 		}
 		// WantAuthnRequestsSigned advertised ⇔ unsigned requests refused
-		if t.Msg.Kind == "sso" && t.Sent != nil && !t.Sent.Signed && len(t.Msg.Tamper) == 0 && len(storageFaults(t)) == 0 && !bodyFaultFired(t) && !t.AdvDuring {
+		// (a request that met a storage fault is still judged in one direction: refusing it is always fine, accepting it unsigned
+		// while "true" is advertised is not — a fault must not switch the requirement off)
+		if t.Msg.Kind == "sso" && t.Sent != nil && !t.Sent.Signed && len(t.Msg.Tamper) == 0 && !bodyFaultFired(t) && !t.AdvDuring {
+			faulted := len(storageFaults(t)) > 0
 			rec := firstCall(t, "GetEntityByID")
 			if rec == nil || rec.SPCfg == nil || rec.SPVer != t.Sent.SPVer || isXSTrue(rec.SPCfg.AuthnRequestsSigned) || !supportedOnly(rec.SPCfg) {
 				continue
@@ -249,7 +252,7 @@ func oracleC11(r *Result) {
 				r.violate("C11 want-signed-not-enforced", "C11:sso:wantauthnrequestssigned-advertised-but-unsigned-accepted",
 					"WantAuthnRequestsSigned is advertised as true exactly when unsigned requests are refused", fmt.Sprintf("advertised %q, unsigned request accepted", mv.WantSigned), t.ID)
 			}
-			if !adv && !accepted {
+			if !adv && !accepted && !faulted {
 				r.violate("C11 want-signed-not-advertised", "C11:sso:unsigned-refused-but-wantauthnrequestssigned-not-advertised",
 					"WantAuthnRequestsSigned is advertised as true exactly when unsigned requests are refused", fmt.Sprintf("advertised %q (present=%v), unsigned conformant request refused: %s", mv.WantSigned, mv.HasWant, replySummary(t)), t.ID)
 			}
@@ -327,7 +330,7 @@ func (g G) planC11() *Plan {
 		m.Replica = g.intn(lab+".rep", 2)
 		if fp > 0 && g.chance(lab+".fa", fp) {
 			// an error reply still has to carry the published issuer
-			m.FaultAt, m.FaultKind = g.rng(lab+".fan", 1, 4), "err"
+			m.FaultAt, m.FaultKind = g.rng(lab+".fan", 1, 4), g.pick(lab+".fak", "err", "err", "nil_record", "empty_cert", "cert_without_key", "key_without_cert", "err_canceled")
 		}
 		p.Steps = append(p.Steps, Step{K: "send", Msg: m})
 		if g.chance(lab+".auto", 60) {
